@@ -297,7 +297,8 @@ static void gen_array_model(rng_t *r, int m, uint64_t *a, size_t n, unsigned max
             a[i] = gen_upto_bits(r, b);
         }
         if (b) {
-            a[rng_below(r, n)] = gen_bits_exact(r, b);
+            size_t pos = rng_below(r, n);
+            a[pos] = gen_bits_exact(r, b);
         }
         break;
     }
